@@ -14,6 +14,11 @@ use elements::{
 };
 use std::str::FromStr;
 
+/// the pegged-asset id of a network, `AssetId` text forms, contracts with numbers in several spellings
+/// (EV.Model.PeggedAsset) — runs after everything else so that the random stream of the ops above is unchanged
+#[path = "c11_pegged.rs"]
+mod pegged_ext;
+
 // ------------------------------------------------------------------ independent oracle
 fn comb(l: &[u8; 32], r: &[u8; 32]) -> [u8; 32] {
     let mut e = sha256::Hash::engine();
@@ -814,4 +819,5 @@ pub fn run(rng: &mut R, out: &mut Out) {
         let j = gen_obj(rng, depth);
         one_contract(rng, out, &j);
     }
+    pegged_ext::run(rng, out);
 }
